@@ -6,6 +6,7 @@ import (
 	"fmt"
 	"net/http"
 	"sort"
+	"strconv"
 	"strings"
 
 	"google.golang.org/protobuf/encoding/protojson"
@@ -39,6 +40,79 @@ func keyPaths(v any, prefix string, out map[string]bool, skipNull bool) {
 	}
 }
 
+// valueLost compares a dispatched body with the documented (explicit) form of the request the handler saw and returns the
+// pointer of the first body value the request does not carry ("" when every value is accounted for). It is lenient where
+// proto3 JSON is: null / {} / [] may mean absent, a quoted number equals the number, numbers compare by value, a number
+// where the request shows a non-numeric string (an enum given by number) and strings that differ only as alternate
+// spellings of a timestamp or of bytes are not judged. Unknown members are the key check's business and are skipped.
+func valueLost(ptr string, bv, ev any) string {
+	if isEmptyJSON(bv) {
+		return ""
+	}
+	switch b := bv.(type) {
+	case map[string]any:
+		e, ok := ev.(map[string]any)
+		if !ok {
+			return ptr + ": an object, the request has " + clip(model.Marshal(ev))
+		}
+		for k, c := range b {
+			if ec, has := e[k]; has {
+				if at := valueLost(ptr+"/"+k, c, ec); at != "" {
+					return at
+				}
+			}
+		}
+		return ""
+	case []any:
+		e, ok := ev.([]any)
+		if !ok || len(e) != len(b) {
+			return ptr + ": a list of " + fmt.Sprint(len(b)) + ", the request has " + clip(model.Marshal(ev))
+		}
+		for i := range b {
+			if at := valueLost(fmt.Sprintf("%s/%d", ptr, i), b[i], e[i]); at != "" {
+				return at
+			}
+		}
+		return ""
+	}
+	if model.Diff(ev, bv) == "" {
+		return ""
+	}
+	num := func(v any) (json.Number, bool) {
+		switch x := v.(type) {
+		case json.Number:
+			return x, true
+		case string:
+			if _, err := strconv.ParseFloat(x, 64); err == nil && strings.TrimSpace(x) == x && x != "" {
+				return json.Number(x), true
+			}
+		}
+		return "", false
+	}
+	bn, bok := num(bv)
+	en, eok := num(ev)
+	switch {
+	case bok && eok:
+		if model.NumEqual(bn, en) {
+			return ""
+		}
+		return fmt.Sprintf("%s: body says %s, the request has %s", ptr, clip(model.Marshal(bv)), clip(model.Marshal(ev)))
+	case bok && !eok:
+		if _, isStr := ev.(string); isStr {
+			if _, bodyIsNumber := bv.(json.Number); bodyIsNumber {
+				return "" // an enum given by number, shown by name
+			}
+		}
+	}
+	if bs, ok := bv.(string); ok {
+		if _, ok := ev.(string); ok {
+			_ = bs
+			return "" // alternate spellings of timestamps, bytes, enum names: not judged here (C04/C05 compare them exactly)
+		}
+	}
+	return fmt.Sprintf("%s: body says %s, the request has %s", ptr, clip(model.Marshal(bv)), clip(model.Marshal(ev)))
+}
+
 // mutations of a JSON document (single mutation each).
 func jsonMutations(doc []byte) [][2]string {
 	var out [][2]string
@@ -57,7 +131,9 @@ func jsonMutations(doc []byte) [][2]string {
 		// values whose quotation in an error message crosses 1 KiB and 4 KiB at every rune alignment
 		longStr("é", 520, 0), longStr("é", 520, 1), longStr("日", 350, 0), longStr("日", 350, 1), longStr("日", 350, 2),
 		longStr("é", 2100, 0), longStr("é", 2100, 1), longStr("日", 1400, 0), longStr("日", 1400, 1), longStr("日", 1400, 2),
-		`null`, `true`, `0`, `-1`, `1e400`, `"x"`, `[]`, `{}`, strings.Repeat("[", 100) + strings.Repeat("]", 100), strings.Repeat(`{"a":`, 100) + `1` + strings.Repeat("}", 100), `"\ud800"`, "\"\xff\""}
+		`null`, `true`, `0`, `-1`, `1e400`, `"x"`, `[]`, `{}`,
+		// number spellings: fractions, exponents, 64-bit overflow, each also quoted (the forms a lenient decoder may half-accept)
+		`1.5`, `17e8`, `-0`, `9223372036854775808`, `18446744073709551616`, `"1.5"`, `"17e8"`, `"1e400"`, `"9223372036854775808"`, `"0x10"`, `" 1"`, strings.Repeat("[", 100) + strings.Repeat("]", 100), strings.Repeat(`{"a":`, 100) + `1` + strings.Repeat("}", 100), `"\ud800"`, "\"\xff\""}
 	var walk func(node any, rebuild func(sub string) string)
 	walk = func(node any, rebuild func(sub string) string) {
 		for _, r := range repl {
@@ -280,6 +356,15 @@ func c11Unit(j *Job, u *JobUnit) error {
 							bad("partially_decoded_dispatched")
 							return
 						}
+					}
+				}
+				// ... and every value of the body by the value the handler saw at that place (the documented form of the request,
+				// spelled out, must say the same thing as the body wherever the body says something)
+				if eerr == nil {
+					if at := valueLost("", bv, ev); at != "" {
+						t.viol(cell, "partially_decoded_dispatched", show+" | value not delivered: "+at+" | handler saw "+clip(model.Marshal(ev)), nil)
+						t.hit(cellBase, "partially_decoded_dispatched", true)
+						return
 					}
 				}
 				t.hit(cellBase, "dispatched_decoded", true)
